@@ -541,6 +541,9 @@ struct VecDriver {
             check_relations();
         }
         if constexpr (watched) {
+            if (size_t const strays = reg().strays_in_arena(); strays != 0) {
+                ctx.violation("C02", "memory:object-outside-its-owner", std::to_string(strays) + " element(s) were constructed outside the storage of the vector that owns them");
+            }
             if (reg().live_outside_arena() != 0) {
                 ctx.violation("C03", "lifetime:temporary-leaked", "a temporary element is still alive after the call returned");
                 reg().harnessHeld.clear();
@@ -1620,6 +1623,27 @@ struct VecDriver {
                     return;
                 }
             }
+            if (op == "fill_many") {
+                // many valid appends in one step (inplace_vector has no bulk insertion): a loop of try_emplace_back calls
+                // that takes the vector anywhere between its current size and its capacity
+                size_t const n = static_cast<size_t>(st.k[0] % (N - sz + 1));
+                int const val  = static_cast<int>(st.v[0]);
+                ctx.log.kv("n", static_cast<long long>(n));
+                bool ok = call(a, false, false, [&] {
+                    for (size_t i = 0; i < n; ++i) {
+                        (void)v.try_emplace_back(earg(val));
+                    }
+                });
+                if (ok) {
+                    m.insert(m.end(), n, val);
+                    if (n != 0) {
+                        changed(a, sz);
+                    }
+                } else {
+                    resync(a);
+                }
+                return;
+            }
             if (op == "clear") {
                 bool ok = call(a, false, false, [&] { v.clear(); });
                 if (ok) {
@@ -1692,7 +1716,7 @@ struct VecDriver {
         static std::vector<OpDef> const inplaceOps = {
             {"try_push_back_copy", 10},      {"try_push_back_move", 10},     {"try_emplace_back", 10}, {"unchecked_push_back_copy", 4},
             {"unchecked_push_back_move", 4}, {"unchecked_emplace_back", 4}, {"pop_back", 10},         {"clear", 3},
-            {"recreate", 6},                 {"write", 5},                   {"read_oob", 2},
+            {"recreate", 6},                 {"write", 5},                   {"read_oob", 2},                 {"fill_many", 4},
         };
         return isStatic ? staticOps : inplaceOps;
     }
